@@ -457,3 +457,124 @@ Proof.
     destruct val; rewrite app_comm_cons, (is_prefix_refl_app (f :: vs_name v)) in Hpre; discriminate.
   - intros <-. discriminate.
 Qed.
+
+(* ---- a selector without "{" is a template of one literal: it matches only itself ---- *)
+Lemma utf8_dec_suffix s r rest : utf8_dec s = Some (r, rest) -> exists pre, s = pre ++ rest.
+Proof.
+  unfold utf8_dec. destruct s as [|b0 s1]; [discriminate|].
+  destruct (N.ltb b0 128); [intros H; injection H as <- <-; exists [b0]; reflexivity|].
+  destruct (in_range 194 223 b0).
+  { destruct s1 as [|b1 s2]; [discriminate|]. destruct (is_cont b1); [|discriminate].
+    intros H; injection H as <- <-. exists [b0; b1]. reflexivity. }
+  destruct (in_range 224 239 b0).
+  { destruct s1 as [|b1 [|b2 s3]]; try discriminate.
+    destruct (in_range _ _ b1 && is_cont b2); [|discriminate].
+    intros H; injection H as <- <-. exists [b0; b1; b2]. reflexivity. }
+  destruct (in_range 240 244 b0); [|discriminate].
+  destruct s1 as [|b1 [|b2 [|b3 s4]]]; try discriminate.
+  destruct (in_range _ _ b1 && is_cont b2 && is_cont b3); [|discriminate].
+  intros H; injection H as <- <-. exists [b0; b1; b2; b3]. reflexivity.
+Qed.
+
+Lemma has_brace_app a b : has_brace (a ++ b) = false -> has_brace b = false.
+Proof.
+  unfold has_brace, mem_N. rewrite existsb_app. intros H. apply orb_false_iff in H. apply H.
+Qed.
+
+Definition with_lit (a : pacc) (l : str) : pacc :=
+  {| pa_parts := pa_parts a; pa_lit := l; pa_op := pa_op a; pa_vars := pa_vars a; pa_name := pa_name a; pa_max := pa_max a |}.
+
+Lemma firstn_len_app {A} (pre rest : list A) : firstn (length (pre ++ rest) - length rest) (pre ++ rest) = pre.
+Proof.
+  rewrite app_length. replace (length pre + length rest - length rest)%nat with (length pre + 0)%nat by lia.
+  rewrite firstn_app_2. cbn [firstn]. apply app_nil_r.
+Qed.
+
+Lemma parse_default_no_brace : forall fuel a s ps,
+  has_brace s = false -> parse_go fuel PDefault a s = Some ps ->
+  ps = rev (flush_lit (with_lit a (rev s ++ pa_lit a))).
+Proof.
+  induction fuel as [|fuel IH]; intros a s ps Hb Hp; [discriminate|].
+  cbn [parse_go] in Hp. destruct s as [|c s'].
+  - injection Hp as <-. destruct a; reflexivity.
+  - destruct (utf8_dec (c :: s')) as [[r rest]|] eqn:Ed; [|discriminate].
+    destruct (N.eqb r 65533); [discriminate|].
+    assert (Hc : N.eqb c 123 = false).
+    { unfold has_brace, mem_N in Hb. cbn [existsb] in Hb. apply orb_false_iff in Hb. destruct Hb as [Hb _].
+      unfold LBRACE in Hb. rewrite N.eqb_sym. exact Hb. }
+    rewrite Hc in Hp. destruct (N.eqb c 37) eqn:E37.
+    + destruct s' as [|h1 [|h2 s3]]; try discriminate.
+      destruct (is_hex h1 && is_hex h2); [|discriminate].
+      apply IH in Hp; [|apply (has_brace_app [c; h1; h2] s3); exact Hb].
+      rewrite Hp. cbn [pa_lit pa_parts pa_op pa_vars pa_name pa_max with_lit]. unfold flush_lit. cbn [pa_lit pa_parts].
+      cbn [rev]. rewrite <- !app_assoc. reflexivity.
+    + destruct (lit_ok r); [|discriminate].
+      destruct (utf8_dec_suffix _ _ _ Ed) as [pre Hpre].
+      apply IH in Hp; [|apply (has_brace_app pre rest); rewrite <- Hpre; exact Hb].
+      rewrite Hp. unfold flush_lit, with_lit. cbn [pa_lit pa_parts].
+      rewrite Hpre, firstn_len_app, rev_app_distr, <- app_assoc. reflexivity.
+Qed.
+
+Lemma rev_nil_inv {A} (l : list A) : rev l = [] -> l = [].
+Proof. destruct l as [|x l]; [reflexivity|]. cbn [rev]. intros H. apply app_eq_nil in H. destruct H; discriminate. Qed.
+
+Theorem brace_free_matches_itself : forall sel f topic,
+  has_brace sel = false -> ut_tmatch sel = Some f -> f topic = true -> topic = sel.
+Proof.
+  intros sel f topic Hb Hf Hm. unfold ut_tmatch in Hf.
+  destruct (ut_parse sel) as [ps|] eqn:Hp; [|discriminate].
+  destruct (compile_ok ps); [|discriminate]. injection Hf as <-.
+  apply rx_match_spec in Hm. unfold ut_parse in Hp.
+  destruct (parse_go _ _ _ _) as [ps0|] eqn:Hg; [|discriminate].
+  destruct (forallb wf_part ps0); [|discriminate]. injection Hp as ->.
+  apply parse_default_no_brace in Hg; [|exact Hb]. subst ps.
+  unfold flush_lit, with_lit, pacc0 in Hm. cbn [pa_lit pa_parts] in Hm. rewrite app_nil_r in Hm.
+  destruct (rev sel) as [|x l] eqn:Er.
+  - apply rev_nil_inv in Er. subst sel. cbn [rev map] in Hm. inversion Hm. reflexivity.
+  - change (rev [PLit (rev (x :: l))]) with [PLit (rev (x :: l))] in Hm. cbn [map rx_of_part] in Hm.
+    inversion Hm as [|p ps' s1 s2 H1 H2]. subst.
+    inversion H2. subst. cbn [PartL] in H1. subst s1. rewrite app_nil_r.
+    change (rev l ++ [x]) with (rev (x :: l)). rewrite <- Er. apply rev_involutive.
+Qed.
+
+(* ---- the right-linear grammars TailL / BodyL are the expression  C1* (?:sep C2* ){0,k} ---- *)
+Lemma UnitsL_Units cls s : UnitsL cls s <-> Units cls s.
+Proof. split; intros H; induction H; constructor; assumption. Qed.
+
+Lemma SepsL_Tail cls sep k r : SepsL cls sep k r -> TailL cls sep k r.
+Proof.
+  intros H. induction H as [k|u s Hu H IH|k u s Hu H IH]; [constructor| |].
+  - apply TSepN. apply Units_Tail; [apply UnitsL_Units; exact Hu | exact IH].
+  - apply TSepS. apply Units_Tail; [apply UnitsL_Units; exact Hu | exact IH].
+Qed.
+
+Theorem TailL_is_the_expression cls sep k s :
+  TailL cls sep k s <-> exists u r, s = u ++ r /\ UnitsL cls u /\ SepsL cls sep k r.
+Proof.
+  split.
+  - intros H. induction H as [k|k c s Hc H IH|k h1 h2 s Hh1 Hh2 H IH|s H IH|k s H IH].
+    + exists [], []. repeat split; constructor.
+    + destruct IH as [u [r [-> [Hu Hr]]]]. exists (c :: u), r. repeat split; [constructor; assumption | exact Hr].
+    + destruct IH as [u [r [-> [Hu Hr]]]]. exists (37 :: h1 :: h2 :: u), r. repeat split; [constructor; assumption | exact Hr].
+    + destruct IH as [u [r [-> [Hu Hr]]]]. exists [], (sep :: u ++ r). repeat split; [constructor | constructor; assumption].
+    + destruct IH as [u [r [-> [Hu Hr]]]]. exists [], (sep :: u ++ r). repeat split; [constructor | constructor; assumption].
+  - intros [u [r [-> [Hu Hr]]]]. apply Units_Tail; [apply UnitsL_Units; exact Hu | apply SepsL_Tail; exact Hr].
+Qed.
+
+Theorem BodyL_is_the_expression cls1 cls2 sep k s :
+  BodyL cls1 cls2 sep k s <-> exists u r, s = u ++ r /\ UnitsL cls1 u /\ SepsL cls2 sep k r.
+Proof.
+  split.
+  - intros H. induction H as [k|k c s Hc H IH|k h1 h2 s Hh1 Hh2 H IH|s H|k s H].
+    + exists [], []. repeat split; constructor.
+    + destruct IH as [u [r [-> [Hu Hr]]]]. exists (c :: u), r. repeat split; [constructor; assumption | exact Hr].
+    + destruct IH as [u [r [-> [Hu Hr]]]]. exists (37 :: h1 :: h2 :: u), r. repeat split; [constructor; assumption | exact Hr].
+    + apply TailL_is_the_expression in H. destruct H as [u [r [-> [Hu Hr]]]].
+      exists [], (sep :: u ++ r). repeat split; [constructor | constructor; assumption].
+    + apply TailL_is_the_expression in H. destruct H as [u [r [-> [Hu Hr]]]].
+      exists [], (sep :: u ++ r). repeat split; [constructor | constructor; assumption].
+  - intros [u [r [-> [Hu Hr]]]]. apply Units_Body; [apply UnitsL_Units; exact Hu|].
+    destruct Hr as [k|u' s' Hu' Hs|k u' s' Hu' Hs]; [constructor| |].
+    + apply BSepN. apply Units_Tail; [apply UnitsL_Units; exact Hu' | apply SepsL_Tail; exact Hs].
+    + apply BSepS. apply Units_Tail; [apply UnitsL_Units; exact Hu' | apply SepsL_Tail; exact Hs].
+Qed.
